@@ -5,9 +5,9 @@ import defgen, macrocorr as mc
 
 PID = "C11"
 MODEL_TARGETS = ["Macro/Analyze.vo", "Proofs/C09.vo", "Proofs/DerivedCat.vo"]
-PROOF_TARGETS = ["Props/C11.vo", "Pinned/C11.vo"]
-PROPS = "Props/C11.v"
-COQCHK = ["QV.Props.C11"]
+PROOF_TARGETS = ["Props/C11.vo", "Pinned/C11.vo", "Props/Literals.vo", "Pinned/Literals.vo"]
+PROPS = ["Props/C11.v", "Props/Literals.v"]
+COQCHK = ["QV.Props.C11", "QV.Props.Literals"]
 TRUSTED_BASE = [
     "Coq 8.16.1 kernel (coqc; vm_compute for the per-definition facts); coqchk in the thorough tier",
     "Macro/Analyze.v, Macro/Casing.v, Macro/Impls.v (hand): model of UnitDef::parse, analyze (stable sort by the f64 value of the scale literal / by name), convert_case, path selection and the impl set of codegen - tied to the code by the computed "
@@ -19,7 +19,8 @@ LEVEL = ("Coq theorems (Props/C11.v) about the model of the generator, for EVERY
          "stable - every group of equal key is the declaration's subsequence, the reference unit leading its group - so permuting the attributes can only reorder units that share a key - stated directly: for two definitions whose attribute lists are permutations of each other the verdict, the reference unit, the multiset of units and the sequence of keys coincide (C11_attribute_order_general), and the analysed result is IDENTICAL when no two units share a name (no reference unit) resp. a scale value (C11_attribute_order_names / _scales); name order without reference unit; path selection; "
          "a general stable-sort theorem (permutation, sortedness, stability) from asymmetry and negative transitivity, instantiated for the f64 key order (via the reals) and the name order. The model equals the generator on every definition "
          "of the tree (computed). On every run fresh seeded definitions are pushed through the repository's real macro code and compared with the model and with a python re-derivation from the property text; a sample is compiled by rustc "
-         "in both amount types and its registry dumped. Partial: syn / convert_case / sort_by are modelled.")
+         "in both amount types and its registry dumped. Partial: syn / convert_case / sort_by are modelled."
+         " 'Scales (the literal's exact value in the amount type)': Props/Literals.v - binary64 correctly rounded (Flocq), decimal exact or rejected for a stated reason.")
 LEVEL_NOTE = "Trusted: Coq kernel, the hand model of the macro front end (validated against the real macro code on every run), rs2j+j2v, Flocq; stdlib real-number axioms."
 ASSUMPTIONS = [
     "calling parse_item/analyze/parse_args/codegen as a library behaves as inside rustc (same code, proc-macro2 fallback)",
